@@ -68,6 +68,11 @@ def items(tier, seed):
                 out.append(dict(name=f"warmup-{name}-w{warm}-{ch[0]}", kind="warmup", routine=name, warm=warm + (2 if name == "mrq" else 0), T=T, scripts=ch, seed=seed))
             out.append(dict(name=f"warmup-prefilled-{name}-w{warm}", kind="warmup", routine=name, warm=warm + (2 if name == "mrq" else 0), T=T,
                             scripts=lsc[:2] if q else lsc[:5], seed=seed, prefill=8))
+            if name == "td7":
+                # checkpoint mode: training is batched at episode ends, also for episodes that end during the warm-up
+                for ch in chunks([sc_ for sc_ in lsc if sc_[:warm].count("c") < warm][: 6 if q else 12], per):
+                    out.append(dict(name=f"warmup-td7-checkpoints-w{warm}-{ch[0]}", kind="warmup", routine=name, warm=warm, T=T, scripts=ch, seed=seed,
+                                    cfg=dict(use_checkpoints=True, window=2, threshold=3)))
     for algo in TABULAR + ["cmaes"]:
         for ch in chunks(scripts, 120):
             out.append(dict(name=f"tab-{algo}-{ch[0]}", kind="tab", algo=algo, T=T, scripts=ch, seed=seed))
@@ -188,6 +193,7 @@ def warmup_item(item, col):
     warm = item["warm"]
     for script in item["scripts"]:
         cfg = dict(buffer_size=16, env_horizon=item["T"] + 4, learning_starts=warm, batch_size=2, snap=True, seed=1 + item["seed"], net_seed=item["seed"])
+        cfg.update(item.get("cfg", {}))
         if item.get("prefill"):
             # the caller hands in a replay buffer that already holds data (a new agent on old experience,
             # or a multi-task buffer): the documented warm-up still counts environment steps
@@ -265,7 +271,7 @@ def cmaes_item(item, col):
     for script in item["scripts"][:: max(1, len(item["scripts"]) // 12)]:
         # every episode must end for an episodic optimiser: close the script with periodic ends
         sc = (script + "T") * 8
-        for n_ep in (1, 2, 5):
+        for n_ep in (1, 2, 3, 5, 6):  # population 4: multiples and non-multiples of one generation
             env = senv.ScriptEnv(sc, discrete=False, horizon=len(sc))
             pol = MLP(2, 2, [3], "tanh", nnx.Rngs(0))
             err = None
@@ -284,9 +290,9 @@ def cmaes_item(item, col):
             elif err == "horizon":
                 col.violation(SIG.format("train_cmaes", "executed>budget"), det)
             else:
-                # episodic budget: whole populations are evaluated, so granularity is one generation (reported)
+                # "stops once the requested number of episodes has finished": the loop counts episodes, not generations
                 col.outcome("cmaes_episode_overshoot_total", max(0, ends - n_ep))
-                if ends > n_ep + 4:
+                if ends > n_ep:
                     col.violation(SIG.format("train_cmaes", "ran-past-episode-limit"), det)
 
 
